@@ -7,4 +7,6 @@ from tc.util import *
 from tc.sym import *
 def load(repo="/repo"):
     p, h, info = extract.ensure_facts(repo)
+    from tc.util import reset_caches
+    reset_caches()
     return Facts(p)
